@@ -184,6 +184,27 @@ func VH_C14_StackClosures(p []int) {
 			s.Remove(l)
 		}
 	}
+	// closures in combination: a Stack its validity closure rejects renders
+	// as the empty string even when a presentation closure is installed
+	if p[0] != 4 {
+		bad := nondetBool()
+		s.SetValidityPolicy(func(...any) error {
+			if bad {
+				return sentinel
+			}
+			return nil
+		})
+		s.SetPresentationPolicy(func(...any) string { return "PRESENTED" })
+		if bad {
+			verifAssert(s.String() == "", "rejected-stack-renders-empty-despite-presentation-closure")
+			verifAssert(Or().Push("x", s).String() == "x", "rejected-nested-stack-contributes-nothing")
+		} else {
+			verifAssert(s.String() == "PRESENTED", "accepted-stack-uses-presentation-closure")
+		}
+		s.SetValidityPolicy(nil)
+		s.SetPresentationPolicy(nil)
+		verifAssert(s.String() == builtinString, "both-removed")
+	}
 	verifReach("end")
 }
 
@@ -256,6 +277,21 @@ func VH_C14_CondClosures(p []int) {
 			c.SetEvaluator(nil)
 			_, err = c.Evaluate("x")
 			verifAssert(err != nil, "evaluate-restored")
+		}
+	}
+	{
+		bad := nondetBool()
+		c.SetValidityPolicy(func(...any) error {
+			if bad {
+				return sentinel
+			}
+			return nil
+		})
+		c.SetPresentationPolicy(func(...any) string { return "PRESENTED" })
+		if bad {
+			verifAssert(c.String() == "", "rejected-condition-renders-empty-despite-presentation-closure")
+		} else {
+			verifAssert(c.String() == "PRESENTED", "accepted-condition-uses-presentation-closure")
 		}
 	}
 	verifReach("end")
